@@ -94,15 +94,42 @@ class Gen:
             args.append(self.winexpr(b) if self.rng.random() < 0.5 else LoopIR.Read(b, [], TT, SI))
         return LoopIR.Call(f, args, SI)
 
-    def block(self, vis, ivars, depth, n):
+    def block(self, vis, ivars, depth, n, force_chain=False):
         rng = self.rng
         vis = list(vis)
         out = []
+        tail = []
         for _ in range(n):
-            kinds = ["assign"] * 3 + ["reduce", "alloc", "alloc", "window", "window", "pass", "call", "wcfg"]
+            kinds = ["assign"] * 3 + ["reduce", "alloc", "alloc", "window", "window", "pass", "call", "wcfg", "chain", "chain"]
             if depth > 0:
                 kinds += ["if"] * 2 + ["for"] * 2
             k = rng.choice(kinds)
+            if force_chain and _ == 0:
+                k = "chain"
+            if k == "chain":
+                # allocation + window chain of depth 2..3; the allocation and the outer windows are not mentioned again;
+                # the last statement of the block uses the innermost window only (read / write / call argument)
+                x = self.sym("t")
+                self.all_bufs.append(x)
+                out.append(LoopIR.Alloc(x, TT, DRAM, SI))
+                cur = x
+                for _lvl in range(rng.choice([2, 2, 3])):
+                    w = self.sym("w")
+                    self.all_wins.append(w)
+                    self.root[w] = self.root.get(cur, cur)
+                    out.append(LoopIR.WindowStmt(w, self.winexpr(cur), SI))
+                    cur = w
+                how = rng.choice(["read", "write", "call"])
+                others = [v for v in vis] or [cur]
+                if how == "read":
+                    last = LoopIR.Assign(rng.choice(others), T.f32, [C0], self.read(cur, ivars), SI)
+                elif how == "write":
+                    last = LoopIR.Assign(cur, T.f32, [C0], self.rhs(others, ivars, 1), SI)
+                else:
+                    last = self.call([cur])
+                tail = [last] + tail
+                vis.append(cur)
+                continue
             if self.malformed and rng.random() < 0.04 and self.all_bufs:
                 self.kind["free_in_input"] += 1
                 out.append(LoopIR.Free(rng.choice(self.all_bufs), TT, DRAM, SI))
@@ -157,7 +184,7 @@ class Gen:
                 it = self.sym("i")
                 body = self.block(vis, ivars + [it], depth - 1, rng.randint(1, 4))
                 out.append(LoopIR.For(it, C0, C4, body, LoopIR.Seq(), SI))
-        return out
+        return out + tail
 
 
 def main(argv):
@@ -168,7 +195,7 @@ def main(argv):
             malformed = i % 3 == 2
             g = Gen(rng, malformed)
             args = [g.sym("a") for _ in range(rng.randint(1, 3))]
-            body = g.block(args, [], 3, rng.randint(1, 6))
+            body = g.block(args, [], 3, rng.randint(1, 6), force_chain=(i % 3 == 1))
             p = LoopIR.proc("synth", [LoopIR.fnarg(a, TT, DRAM, SI) for a in args], [], body, None, SI)
             ex = X.Exporter()
             rec = {"tag": "s%d" % i, "malformed": malformed, "kinds": g.kind}
